@@ -327,23 +327,26 @@ def hamEqualities (c : Container H) : List Bool × List Bool :=
   | some a, some b => (a, b)
   | _, _ => (makeEqs I (firstSub c.graphs), makeEqs I (secondSub c.graphs))
 
-/-- body shared by `tempering_step` and `parallel_tempering_step` (`fa` = swap routine of phase
-a; phase b always uses the serial routine) -/
-def stepBody (fa : SwapFn H) (c : Container H) : Container H × List Dec :=
-  let eqs := hamEqualities I c
-  let m := maxCutoff c.graphs
-  let gs := c.graphs.map (·.setCutoff m)
-  let (b, s1) := c.rng.genBool (1 / 2)
-  if b then
-    let ra := phaseA fa gs eqs.1 s1
+/-- the two phases in the order decided by the `gen_bool(0.5)` draw `g` (`fa` = swap routine of
+phase a; phase b always uses the serial routine), on the cutoff-equalised ladder `gs` -/
+def stepCore (fa : SwapFn H) (ts : Nat) (eqs : List Bool × List Bool) (gs : List (Replica H))
+    (g : Bool × RS) : Container H × List Dec :=
+  if g.1 then
+    let ra := phaseA fa gs eqs.1 g.2
     let rb := phaseB (performSwaps I) ra.1 eqs.2 ra.2.2
     ({ graphs := rb.1, rng := rb.2.2, eqA := some eqs.1, eqB := some eqs.2,
-       totalSwaps := c.totalSwaps + countAccepted ra.2.1 + countAccepted rb.2.1 }, ra.2.1 ++ rb.2.1)
+       totalSwaps := ts + countAccepted ra.2.1 + countAccepted rb.2.1 }, ra.2.1 ++ rb.2.1)
   else
-    let rb := phaseB (performSwaps I) gs eqs.2 s1
+    let rb := phaseB (performSwaps I) gs eqs.2 g.2
     let ra := phaseA fa rb.1 eqs.1 rb.2.2
     ({ graphs := ra.1, rng := ra.2.2, eqA := some eqs.1, eqB := some eqs.2,
-       totalSwaps := c.totalSwaps + countAccepted rb.2.1 + countAccepted ra.2.1 }, rb.2.1 ++ ra.2.1)
+       totalSwaps := ts + countAccepted rb.2.1 + countAccepted ra.2.1 }, rb.2.1 ++ ra.2.1)
+
+/-- body shared by `tempering_step` and `parallel_tempering_step`: Hamiltonian equalities (cached),
+cutoffs raised to the ladder maximum, order draw, two phases -/
+def stepBody (fa : SwapFn H) (c : Container H) : Container H × List Dec :=
+  stepCore I fa c.totalSwaps (hamEqualities I c)
+    (c.graphs.map (·.setCutoff (maxCutoff c.graphs))) (c.rng.genBool (1 / 2))
 
 /-- `TemperingContainer::tempering_step` (returns the decision log as well) -/
 def temperingStep (c : Container H) : Container H × List Dec :=
